@@ -151,8 +151,19 @@ IsIntNum(n) == n[2] = 1
 
 \* Is the text a valid network?  Decided for the seed family only: dotted quad / prefix with
 \* zero host bits, or the IPv6 seeds; everything else the generator marks itself.
-ValidCidrSeeds == {<<49,48,46,48,46,48,46,48,47,56>>,          \* 10.0.0.0/8
-                   <<58,58,49,47,49,50,56>>}                   \* ::1/128
+\* a canonical IPv4 network "a.b.c.d/p": four decimal octets without leading zeros, a prefix
+\* length 0..32 without leading zeros, no host bits set (other spellings - netmasks, a missing
+\* prefix length, IPv6 beyond the seed - are left to C18)
+CanonNat(t, max) == /\ Len(t) \in 1..3 /\ \A i \in 1..Len(t) : IsDigit(t[i])
+                    /\ (Len(t) > 1 => t[1] # 48) /\ DecVal(t) <= max
+CanonV4Cidr(raw) ==
+    LET sl == SplitAt(raw, 47) IN
+    /\ Len(sl) = 2 /\ CanonNat(sl[2], 32)
+    /\ LET oc == SplitAt(sl[1], 46) IN
+       /\ Len(oc) = 4 /\ \A i \in 1..4 : CanonNat(oc[i], 255)
+       /\ LET a == [i \in 1..4 |-> DecVal(oc[i])] IN MaskV4(a, DecVal(sl[2])) = a
+ValidCidrSeeds == {<<58,58,49,47,49,50,56>>}                   \* ::1/128
+IsValidCidr(raw) == raw \in ValidCidrSeeds \/ CanonV4Cidr(raw)
 
 ValueMod(m, v, applied, hasField, raw) ==
     CASE m \in {N_contains, N_startswith, N_endswith} -> WildMod(m, v)
@@ -184,7 +195,7 @@ ValueMod(m, v, applied, hasField, raw) ==
       [] m = N_cidr ->
            (IF ~IsStrLike(v) THEN REJECT
             ELSE IF applied # <<>> THEN REJECT
-            ELSE IF raw \in ValidCidrSeeds THEN OK(<<VCidr(raw)>>)
+            ELSE IF IsValidCidr(raw) THEN OK(<<VCidr(raw)>>)
             ELSE IF \A k \in 1..Len(raw) : raw[k] \notin {46, 58} THEN REJECT     \* no '.' or ':' at all
             ELSE UNSPEC)
       [] m = N_exists ->
